@@ -46,6 +46,24 @@ type C11Close struct {
 	Repeat  int `json:"repeat"`
 }
 
+// C11Reopen closes one logical connection before the traffic starts and opens the same id
+// again (a new incarnation); the stale handle is then closed again at drawn points. The
+// traffic of the case uses the new handle.
+type C11Reopen struct {
+	Side      int  `json:"side"`
+	Conn      int  `json:"conn"`
+	Both      bool `json:"both,omitempty"`       // the peer closes and re-opens its handle as well
+	OldFrames int  `json:"old_frames,omitempty"` // frames the peer sends to the old incarnation (<= queue length), all dispatched before Close
+	OldRead   int  `json:"old_read,omitempty"`   // how many of them the old handle reads before it is closed
+	Repeat    int  `json:"repeat,omitempty"`     // the first Close is called this many times
+	// repeated Close of the stale handle(s): number of concurrent closers (0 = not at this point)
+	StaleBefore      int `json:"stale_before,omitempty"` // after the re-open, before any traffic
+	StaleDuring      int `json:"stale_during,omitempty"` // when the StaleAfterWrites-th Write is about to start
+	StaleAfterWrites int `json:"stale_after_writes,omitempty"`
+	StaleQuiet       int `json:"stale_quiet,omitempty"` // when all traffic is done, before the final Close
+	StaleRepeat      int `json:"stale_repeat,omitempty"`
+}
+
 // C11Listener is the second, small sub-case kind: the net.Listener returned by Mux.Listen.
 type C11Listener struct {
 	AcceptorsBefore []int `json:"acceptors_before"` // per goroutine started before Close: number of Accept calls
@@ -54,6 +72,14 @@ type C11Listener struct {
 	Repeat          int   `json:"repeat"`
 	AcceptsAfter    int   `json:"accepts_after"` // Accept calls made after Close returned
 	UseConn         bool  `json:"use_conn"`      // send a payload through the accepted connection before Close
+	// Reopen: the accepted connection is closed by its user and the id is opened again before the
+	// listener is closed (which closes the wrapped, stale connection once more); the peer sends
+	// FramesBefore/FramesAfter small frames to the new handle before/after the listener's Close,
+	// then the mux CloseSide is closed.
+	Reopen       bool `json:"reopen,omitempty"`
+	FramesBefore int  `json:"frames_before,omitempty"`
+	FramesAfter  int  `json:"frames_after,omitempty"`
+	CloseSide    int  `json:"close_side,omitempty"`
 }
 
 type C11Case struct {
@@ -65,6 +91,7 @@ type C11Case struct {
 	Failure  C11Failure   `json:"failure"`
 	Final    C11Close     `json:"final"`
 	Delays   []Delay      `json:"delays,omitempty"`
+	Reopen   []C11Reopen  `json:"reopen,omitempty"`
 	Listener *C11Listener `json:"listener,omitempty"`
 }
 
@@ -212,6 +239,32 @@ func genC11(t *rapid.T) C11Case {
 		}
 	}
 	c.Failure = f
+	if rapid.IntRange(0, 9).Draw(t, "reopen") < 4 {
+		n := rapid.IntRange(1, min(2, len(c.IDs))).Draw(t, "nreopen")
+		first := rapid.IntRange(0, len(c.IDs)-1).Draw(t, "reopen_conn")
+		for i := 0; i < n; i++ {
+			ro := C11Reopen{Side: rapid.IntRange(0, 1).Draw(t, "ro_side"), Conn: (first + i) % len(c.IDs),
+				Both: rapid.IntRange(0, 2).Draw(t, "ro_both") == 0, Repeat: rapid.SampledFrom([]int{1, 1, 2}).Draw(t, "ro_repeat")}
+			if rapid.IntRange(0, 2).Draw(t, "ro_old") == 0 {
+				ro.OldFrames = rapid.IntRange(1, min(4, c.QLen)).Draw(t, "ro_oldframes")
+				ro.OldRead = rapid.IntRange(0, ro.OldFrames).Draw(t, "ro_oldread")
+			}
+			closers := rapid.SampledFrom([]int{1, 1, 2, 4})
+			switch rapid.IntRange(0, 5).Draw(t, "ro_when") {
+			case 0, 1:
+				ro.StaleBefore = closers.Draw(t, "ro_c")
+			case 2, 3:
+				ro.StaleDuring = closers.Draw(t, "ro_c")
+			case 4:
+				ro.StaleQuiet = closers.Draw(t, "ro_c")
+			default:
+				ro.StaleBefore, ro.StaleDuring, ro.StaleQuiet = closers.Draw(t, "ro_c1"), closers.Draw(t, "ro_c2"), closers.Draw(t, "ro_c3")
+			}
+			ro.StaleAfterWrites = rapid.IntRange(0, totalWrites+1).Draw(t, "ro_after")
+			ro.StaleRepeat = rapid.SampledFrom([]int{1, 1, 2, 3}).Draw(t, "ro_srepeat")
+			c.Reopen = append(c.Reopen, ro)
+		}
+	}
 	c.Final.Side = rapid.IntRange(0, 1).Draw(t, "final_side")
 	c.Final.Closers, c.Final.Repeat = genClosers(t)
 	c.Delays = genDelays(t, 5)
@@ -227,6 +280,15 @@ func genC11Listener(t *rapid.T) C11Case {
 	l.Closers, l.Repeat = genClosers(t)
 	l.AcceptsAfter = rapid.IntRange(0, 3).Draw(t, "after")
 	l.UseConn = rapid.Bool().Draw(t, "use")
+	if rapid.IntRange(0, 1).Draw(t, "lreopen") == 0 {
+		l.Reopen = true
+		if len(l.AcceptorsBefore) == 0 {
+			l.AcceptorsBefore = []int{1}
+		}
+		l.FramesBefore = rapid.IntRange(0, min(3, c.QLen)).Draw(t, "lfb")
+		l.FramesAfter = rapid.IntRange(0, min(3, c.QLen-l.FramesBefore)).Draw(t, "lfa")
+		l.CloseSide = rapid.IntRange(0, 1).Draw(t, "lcs")
+	}
 	c.Listener = l
 	c.Failure.Kind = "listener"
 	c.Delays = genDelays(t, 3)
@@ -243,6 +305,7 @@ type cutConn struct {
 	mu             sync.Mutex // serialises Write accounting (the mux writes under its own lock anyway)
 	wN, rN         int64
 	cut            atomic.Bool
+	armed          atomic.Bool // counting starts once armed (after the prologue of the case)
 	onCut          func()
 }
 
@@ -262,7 +325,7 @@ func (c *cutConn) doCut() {
 }
 
 func (c *cutConn) Write(p []byte) (int, error) {
-	if c.wLimit < 0 {
+	if c.wLimit < 0 || !c.armed.Load() {
 		return c.Conn.Write(p)
 	}
 	c.mu.Lock()
@@ -293,7 +356,7 @@ func (c *cutConn) Write(p []byte) (int, error) {
 }
 
 func (c *cutConn) Read(p []byte) (int, error) {
-	if c.rLimit < 0 {
+	if c.rLimit < 0 || !c.armed.Load() {
 		return c.Conn.Read(p)
 	}
 	if c.cut.Load() {
